@@ -3,6 +3,10 @@ package main
 import (
 	"encoding/json"
 	"fmt"
+	be "github.com/echoface/be_indexer"
+	"github.com/echoface/be_indexer/holder/ahoholder"
+	"reflect"
+	"strings"
 )
 
 // ---- generator of document sets and queries over default-container fields ----
@@ -411,6 +415,63 @@ func init() {
 		gen: gen("compact", false, true), exec: execE2EOrCache}
 }
 
+// customSeparatorProbe: pattern holders with the separators "\n", "\t", "|", "" and ", " -- every conjunction the
+// collector gets is satisfied under "a keyword occurs in the values joined by THAT separator", and every satisfied one is got
+func customSeparatorProbe() (calls int, viol []string) {
+	for si, sep := range []string{"\n", "\t", "|", "", ", "} {
+		name := fmt.Sprintf("verif_ac_sep%d", si)
+		sepCopy := sep
+		be.RegisterEntriesHolder(name, func() be.EntriesHolder {
+			return ahoholder.NewACEntriesHolder(ahoholder.ACHolderOption{QuerySep: sepCopy})
+		})
+		kws := [][]string{{"new york"}, {"new" + sep + "york"}, {"love"}, {"times square", "newyork"}}
+		for _, kind := range []string{"kgroups", "compact"} {
+			c := eCase{Kind: kind, Policy: "error"}
+			b := newBuilder(&c)
+			b.ConfigField(fieldName(1), be.FieldOption{Container: name})
+			for i, ks := range kws {
+				d := be.NewDocument(be.DocID(i + 1))
+				d.AddConjunction(be.NewConjunction().In(fieldName(1), ks), be.NewConjunction().NotIn(fieldName(1), ks).In(fieldName(0), []int{1}))
+				b.AddDocument(d)
+			}
+			var index be.BEIndex
+			if safeCall(func() { index = b.BuildIndex() }) {
+				continue
+			}
+			for _, vals := range [][]string{{"i love new", "york times"}, {"new york"}, {"new", "york"}, {"times", "square"}, {"nothing here"}, {"a new", "york", "love"}} {
+				text := strings.Join(vals, sep)
+				want := map[[2]int64]bool{}
+				for i, ks := range kws {
+					hit := false
+					for _, k := range ks {
+						hit = hit || strings.Contains(text, k)
+					}
+					if hit {
+						want[[2]int64{int64(i + 1), 0}] = true
+					} else {
+						want[[2]int64{int64(i + 1), 1}] = true
+					}
+				}
+				rec := &recCollector{}
+				calls++
+				var err error
+				if safeCall(func() { err = index.RetrieveWithCollector(be.Assignments{fieldName(1): vals, fieldName(0): 1}, rec) }) || err != nil {
+					viol = append(viol, fmt.Sprintf("separator %q, %s: retrieval of %q failed (%v)", sep, kind, vals, err))
+					continue
+				}
+				got := map[[2]int64]bool{}
+				for _, h := range rec.hits {
+					got[[2]int64{h[0], h[1]}] = true
+				}
+				if !reflect.DeepEqual(got, want) && len(viol) < 6 {
+					viol = append(viol, fmt.Sprintf("separator %q, %s index: values %q joined to %q: collector got (doc, position) %v, the substring rule gives %v", sep, kind, vals, text, got, want))
+				}
+			}
+		}
+	}
+	return
+}
+
 // execE2EOrCache: an end-to-end case, or (input with "cache": true) three builds sharing a cache provider
 func execE2EOrCache(raw json.RawMessage) (execResult, error) {
 	var probe struct {
@@ -506,6 +567,12 @@ func init() {
 				add(cacheIn{Cache: true, Case: c, Thr: 2, Seed: 5, MissPct: 0, DropPct: 0})
 				add(cacheIn{Cache: true, Case: c, Thr: 2, Seed: 6, MissPct: 30, DropPct: 0, Reuse: true})
 			}
+		},
+		// pattern holders registered with OTHER query separators (the option the container offers; the Coq model has
+		// the stock separator only): collector calls against the substring rule evaluated on the joined text
+		extra: func(tier string, seed uint64, outdir string) (map[string]interface{}, []string) {
+			calls, viol := customSeparatorProbe()
+			return map[string]interface{}{"custom_separator_collector_calls": calls}, viol
 		},
 		exec: func(raw json.RawMessage) (execResult, error) {
 			var probe struct {
